@@ -1,11 +1,11 @@
 (** C20 - system tuning by denoise is always undone and used only as granted.
     Statements only; proofs in Proofs/DenoiseP.v.  The position of restore_noise (in the finally block of the
     try that contains minimize_noise and the session body) is regenerated from rebench/rebench.py on every
-    run (Gen/GenFacts.restore_in_finally).  Tied to rebench/denoise_client.py, rebench/executor.py and
+    run (Gen/GenFactsSession.restore_in_finally).  Tied to rebench/denoise_client.py, rebench/executor.py and
     rebench/denoise.py by harness/c20.py (a fake sudo first on PATH, never the real one). *)
 From Coq Require Import List ZArith Bool Arith Reals.
 Import ListNotations.
-From RV Require Import Lib.Str Gen.GenFacts Model.Denoise Proofs.DenoiseP.
+From RV Require Import Lib.Str Gen.GenFactsSession Model.Denoise Proofs.DenoiseP.
 
 (** For every way the session body can end (normal return with either result, user error, interrupt, any
     other exception), every capability report that is not "everything failed", every list of process
